@@ -234,35 +234,57 @@ func runC19(t *Trace, r *Rng, tier string, _ []string) {
 	// thorough tier), alone and three times in a row, through every char filter and token filter; one
 	// line per component and block of 256 runes, carrying the first failure if there is one
 	sweep := [][2]rune{{0x00, 0x250}, {0x370, 0x600}, {0x1e00, 0x3400}, {0xa640, 0xa800}, {0xfb00, 0xfb50}, {0xfe00, 0xfff0}, {0x1f100, 0x1f200}}
-	if tier == "thorough" {
+	// the thorough tier covers every rune, split over its four shards by block of 256 (the shards differ in their seed)
+	allRunes := tier == "thorough"
+	shard := int(runSeed % 4)
+	if allRunes {
 		sweep = [][2]rune{{0, 0x110000}}
+	}
+	quickBlocks := [][2]rune{{0x00, 0x250}, {0x370, 0x600}, {0x1e00, 0x3400}, {0xa640, 0xa800}, {0xfb00, 0xfb50}, {0xfe00, 0xfff0}, {0x1f100, 0x1f200}}
+	inQuick := func(rn rune) bool {
+		for _, b := range quickBlocks {
+			if rn >= b[0] && rn < b[1] {
+				return true
+			}
+		}
+		return false
 	}
 	sweepRun := func(cat string, f func(in []byte)) {
 		for _, blk := range sweep {
 			for lo := blk[0]; lo < blk[1]; lo += 256 {
-				first := "ok"
-				for rn := lo; rn < lo+256 && rn < blk[1] && first == "ok"; rn++ {
-					if rn >= 0xd800 && rn < 0xe000 {
-						continue
-					}
-					// alone, three times in a row, and followed by a combining or half-width sound mark (filters that fold
-					// a mark into the preceding rune index tables by that rune)
-					for _, rep := range []int{1, 3, -0xff9e, -0xff9f, -0x3099, -0x309a, -0x0301} {
-						var in []byte
-						if rep < 0 {
-							in = []byte(string(rn) + string(rune(-rep)))
-						} else {
-							in = []byte(strings.Repeat(string(rn), rep))
+				if allRunes && int(lo/256)%4 != shard {
+					continue
+				}
+				// one guarded call per block of 256 runes; `at` says where it stopped
+				at := ""
+				res := runGuarded(20*limit, func() string {
+					for rn := lo; rn < lo+256 && rn < blk[1]; rn++ {
+						if rn >= 0xd800 && rn < 0xe000 {
+							continue
 						}
-						res := runGuarded(limit, func() string {
+						// alone, three times in a row, and (in the blocks text-folding tables single out) followed by a
+						// combining or half-width sound mark: filters that fold a mark into the preceding rune index
+						// tables by that rune
+						reps := []int{1, 3}
+						if inQuick(rn) {
+							reps = []int{1, 3, -0xff9e, -0xff9f, -0x3099, -0x309a, -0x0301}
+						}
+						for _, rep := range reps {
+							var in []byte
+							if rep < 0 {
+								in = []byte(string(rn) + string(rune(-rep)))
+							} else {
+								in = []byte(strings.Repeat(string(rn), rep))
+							}
+							at = fmt.Sprintf("@U+%04X*%d", rn, rep)
 							f(in)
-							return "ok"
-						})
-						if res != "ok" {
-							first = fmt.Sprintf("%s@U+%04X*%d", res, rn, rep)
-							break
 						}
 					}
+					return "ok"
+				})
+				first := "ok"
+				if res != "ok" {
+					first = res + at
 				}
 				t.Emit(cat, true, "echo ok", first)
 			}
